@@ -644,11 +644,19 @@ func (p *parser) readArgValues() (avs []*ArgValue, err error) {
 
 func (p *parser) readArgValue() (av *ArgValue, err error) {
 	av = &ArgValue{}
-	if av.Arg, err = p.readToken(); err != nil {
+	// Note where the name starts before reading it. Reading looks one byte
+	// ahead and that byte can be on the next line.
+	_, err = p.skipSpace()
+	line := p.line
+	col := p.col
+	if err == nil {
+		av.Arg, err = p.readToken()
+	}
+	if err != nil {
 		return
 	}
-	av.line = p.line
-	av.col = p.col - len(av.Arg) - 1
+	av.line = line
+	av.col = col - 1
 	if len(av.Arg) == 0 {
 		return nil, parseError(p.line, p.col, "argument name missing")
 	}
